@@ -31,6 +31,9 @@ def explore(ctx):
     jcases = corpus_cases('C18')
     for i in range(n):
         rows = gen.gen_rows(rng, rng.randint(0, 8))
+        for j in range(len(rows)):
+            if rng.random() < 0.08:
+                rows[j] = rng.choice([{}, {}, {'zz': 1}, {'nope2': None}])      # a row with no field at all / none of the others' fields
         for r in rows:
             if rng.random() < 0.3:
                 r['we"ird\\key\n'] = rng.choice(['q"uote', 'back\\slash', 'tab\there', 'nl\nx', '\x01ctl', '😀', 'é'])
